@@ -483,3 +483,378 @@ func constantInt64(c *ssa.Const) (int64, bool) {
 	}
 	return 0, false
 }
+
+// ---------------------------------------------------------------------------
+// Reaching stores for local variables kept in Allocs, and value sources
+
+type storeSet map[*ssa.Store]bool
+
+var reachCache = map[*ssa.Alloc]map[*ssa.BasicBlock]storeSet{}
+
+// reachingIn computes, per block, the set of stores to local `a` (made in a's
+// own function) that may reach the block entry. A nil key marks "no store yet"
+// (the zero value).
+func reachingIn(a *ssa.Alloc) map[*ssa.BasicBlock]storeSet {
+	if r, ok := reachCache[a]; ok {
+		return r
+	}
+	fn := a.Parent()
+	in := map[*ssa.BasicBlock]storeSet{}
+	out := map[*ssa.BasicBlock]storeSet{}
+	lastStore := func(b *ssa.BasicBlock) *ssa.Store {
+		var last *ssa.Store
+		for _, x := range b.Instrs {
+			if st, ok := x.(*ssa.Store); ok && st.Addr == a {
+				last = st
+			}
+		}
+		return last
+	}
+	for _, b := range fn.Blocks {
+		in[b] = storeSet{}
+		out[b] = storeSet{}
+	}
+	in[fn.Blocks[0]][nil] = true
+	changed := true
+	for changed {
+		changed = false
+		for _, b := range fn.Blocks {
+			for _, p := range b.Preds {
+				for s := range out[p] {
+					if !in[b][s] {
+						in[b][s] = true
+						changed = true
+					}
+				}
+			}
+			var o storeSet
+			if ls := lastStore(b); ls != nil {
+				o = storeSet{ls: true}
+			} else {
+				o = in[b]
+			}
+			for s := range o {
+				if !out[b][s] {
+					out[b][s] = true
+					changed = true
+				}
+			}
+			if ls := lastStore(b); ls != nil && len(out[b]) != 1 {
+				out[b] = storeSet{ls: true}
+			}
+		}
+	}
+	reachCache[a] = in
+	return in
+}
+
+// storesReaching returns the stores to `a` that may reach instruction `at`.
+func storesReaching(a *ssa.Alloc, at ssa.Instruction) storeSet {
+	b := at.Block()
+	var last *ssa.Store
+	for _, x := range b.Instrs {
+		if x == at {
+			break
+		}
+		if st, ok := x.(*ssa.Store); ok && st.Addr == a {
+			last = st
+		}
+	}
+	if last != nil {
+		return storeSet{last: true}
+	}
+	return reachingIn(a)[b]
+}
+
+// sourcesOf resolves a value through phis, conversions and loads of local
+// variables (by reaching stores) to the set of values it may come from.
+// zero is reported (as a nil entry) when an uninitialised local may be read.
+func sourcesOf(v ssa.Value) map[ssa.Value]bool {
+	out := map[ssa.Value]bool{}
+	seen := map[ssa.Value]bool{}
+	var walk func(v ssa.Value)
+	walk = func(v ssa.Value) {
+		if v == nil || seen[v] {
+			return
+		}
+		seen[v] = true
+		switch x := v.(type) {
+		case *ssa.Phi:
+			for _, e := range x.Edges {
+				walk(e)
+			}
+			return
+		case *ssa.ChangeType:
+			walk(x.X)
+			return
+		case *ssa.MakeInterface:
+			walk(x.X)
+			return
+		case *ssa.ChangeInterface:
+			walk(x.X)
+			return
+		case *ssa.UnOp:
+			if x.Op == token.MUL {
+				if a, ok := x.X.(*ssa.Alloc); ok && a.Parent() == x.Parent() {
+					for st := range storesReaching(a, x) {
+						if st == nil {
+							out[nil] = true
+						} else {
+							walk(st.Val)
+						}
+					}
+					return
+				}
+			}
+		}
+		out[v] = true
+	}
+	walk(v)
+	return out
+}
+
+// callOfExtract returns the call an Extract (or a direct single-result call value) comes from.
+func callOfValue(v ssa.Value) (*ssa.Call, int) {
+	switch x := v.(type) {
+	case *ssa.Extract:
+		if c, ok := x.Tuple.(*ssa.Call); ok {
+			return c, x.Index
+		}
+	case *ssa.Call:
+		return x, 0
+	}
+	return nil, -1
+}
+
+// errTestEdges: for every If in fn whose condition is a nil test of a value
+// all of whose sources satisfy pred, returns the edge taken when the value is nil.
+type nilEdge struct {
+	If   *ssa.If
+	Succ int // successor index taken when the tested value IS nil
+}
+
+func nilEdgesOf(fn *ssa.Function, pred func(src ssa.Value) bool) []nilEdge {
+	var out []nilEdge
+	for _, b := range fn.Blocks {
+		if len(b.Instrs) == 0 {
+			continue
+		}
+		iff, ok := b.Instrs[len(b.Instrs)-1].(*ssa.If)
+		if !ok {
+			continue
+		}
+		x, trueNil, ok := nilTest(iff.Cond)
+		if !ok {
+			continue
+		}
+		srcs := sourcesOf(x)
+		if len(srcs) == 0 {
+			continue
+		}
+		all := true
+		for s := range srcs {
+			if s == nil || !pred(s) {
+				all = false
+				break
+			}
+		}
+		if !all {
+			continue
+		}
+		succ := 1
+		if trueNil {
+			succ = 0
+		}
+		out = append(out, nilEdge{iff, succ})
+	}
+	return out
+}
+
+// dominatedByNilEdge: instruction `in` is only reachable through the "is nil"
+// edge of a test of a value whose sources all satisfy pred.
+func dominatedByNilEdge(in ssa.Instruction, pred func(src ssa.Value) bool) bool {
+	for _, e := range nilEdgesOf(in.Parent(), pred) {
+		if edgeDominates(e.If.Block(), e.Succ, in.Block()) {
+			return true
+		}
+	}
+	return false
+}
+
+// inCycle reports whether block b can reach itself.
+func inCycle(b *ssa.BasicBlock) bool {
+	seen := map[*ssa.BasicBlock]bool{}
+	var walk func(x *ssa.BasicBlock) bool
+	walk = func(x *ssa.BasicBlock) bool {
+		for _, s := range x.Succs {
+			if s == b {
+				return true
+			}
+			if !seen[s] {
+				seen[s] = true
+				if walk(s) {
+					return true
+				}
+			}
+		}
+		return false
+	}
+	return walk(b)
+}
+
+// reachAvoiding: blocks reachable from `from` without entering blocked blocks
+// and without taking blocked edges (block, successor index).
+func reachAvoiding(from *ssa.BasicBlock, blocked map[*ssa.BasicBlock]bool, blockedEdges map[[2]int]bool) map[*ssa.BasicBlock]bool {
+	seen := map[*ssa.BasicBlock]bool{}
+	var walk func(b *ssa.BasicBlock)
+	walk = func(b *ssa.BasicBlock) {
+		if seen[b] || blocked[b] {
+			return
+		}
+		seen[b] = true
+		for i, s := range b.Succs {
+			if blockedEdges[[2]int{b.Index, i}] {
+				continue
+			}
+			walk(s)
+		}
+	}
+	walk(from)
+	return seen
+}
+
+// storesToField lists Store instructions in fn whose address is a FieldAddr of field f.
+func storesToField(fn *ssa.Function, f *types.Var) []*ssa.Store {
+	var out []*ssa.Store
+	for _, b := range fn.Blocks {
+		for _, in := range b.Instrs {
+			if st, ok := in.(*ssa.Store); ok {
+				if fa, ok := st.Addr.(*ssa.FieldAddr); ok && fieldOf(fa) == f {
+					out = append(out, st)
+				}
+			}
+		}
+	}
+	return out
+}
+
+// loadsOfField lists loads (UnOp *) of FieldAddr of field f in fn.
+func loadsOfField(fn *ssa.Function, f *types.Var) []*ssa.UnOp {
+	var out []*ssa.UnOp
+	for _, b := range fn.Blocks {
+		for _, in := range b.Instrs {
+			if u, ok := in.(*ssa.UnOp); ok && u.Op == token.MUL {
+				if fa, ok := u.X.(*ssa.FieldAddr); ok && fieldOf(fa) == f {
+					out = append(out, u)
+				}
+			}
+		}
+	}
+	return out
+}
+
+// isFieldLoad: v is a load of field f (possibly through conversions).
+func isFieldLoad(v ssa.Value, f *types.Var) bool {
+	u, ok := unwrap(v).(*ssa.UnOp)
+	if !ok || u.Op != token.MUL {
+		return false
+	}
+	fa, ok := u.X.(*ssa.FieldAddr)
+	return ok && fieldOf(fa) == f
+}
+
+// returnsOf lists the Return instructions of fn, skipping the synthetic
+// recover block go/ssa adds to functions with defer.
+func returnsOf(fn *ssa.Function) []*ssa.Return {
+	var out []*ssa.Return
+	for _, b := range fn.Blocks {
+		if b == fn.Recover || len(b.Instrs) == 0 {
+			continue
+		}
+		if r, ok := b.Instrs[len(b.Instrs)-1].(*ssa.Return); ok {
+			out = append(out, r)
+		}
+	}
+	return out
+}
+
+// ---------------------------------------------------------------------------
+// Facts: atomic branch conditions known to hold when a block is reached.
+
+type fact struct {
+	V     ssa.Value // atomic condition (not a NOT, not a boolean phi)
+	Truth bool
+}
+
+// condImplies decomposes "cond evaluates to val" into atomic facts. Boolean
+// phis produced by && / || are followed when exactly one incoming edge can
+// produce that value; the facts guarding that edge's block are added too.
+func condImplies(cond ssa.Value, val bool, depth int, out *[]fact) {
+	if depth > 6 {
+		return
+	}
+	switch x := cond.(type) {
+	case *ssa.UnOp:
+		if x.Op == token.NOT {
+			condImplies(x.X, !val, depth+1, out)
+			return
+		}
+	case *ssa.Phi:
+		cand := -1
+		n := 0
+		for i, e := range x.Edges {
+			if k, ok := e.(*ssa.Const); ok && k.Value != nil {
+				if (k.Value.String() == "true") == val {
+					n += 2 // a constant edge can produce the value: nothing more is known
+				}
+				continue
+			}
+			cand = i
+			n++
+		}
+		if n == 1 && cand >= 0 {
+			condImplies(x.Edges[cand], val, depth+1, out)
+			pred := x.Block().Preds[cand]
+			*out = append(*out, factsAtDepth(pred, depth+1)...)
+		}
+		return
+	}
+	*out = append(*out, fact{cond, val})
+}
+
+func factsAt(b *ssa.BasicBlock) []fact { return factsAtDepth(b, 0) }
+
+func factsAtDepth(b *ssa.BasicBlock, depth int) []fact {
+	var out []fact
+	if depth > 6 {
+		return out
+	}
+	for _, e := range guardingEdges(b) {
+		condImplies(e.If.Cond, e.Succ == 0, depth+1, &out)
+	}
+	return out
+}
+
+// hasFact: some fact at b satisfies pred(v) with the wanted truth.
+func hasFact(b *ssa.BasicBlock, pred func(v ssa.Value, truth bool) bool) bool {
+	for _, f := range factsAt(b) {
+		if pred(f.V, f.Truth) {
+			return true
+		}
+	}
+	return false
+}
+
+// sameSources: the two values resolve to the same non-empty set of sources.
+func sameSources(a, b ssa.Value) bool {
+	sa, sb := sourcesOf(a), sourcesOf(b)
+	if len(sa) == 0 || len(sa) != len(sb) {
+		return false
+	}
+	for v := range sa {
+		if !sb[v] {
+			return false
+		}
+	}
+	return true
+}
